@@ -76,7 +76,7 @@ impl PhysLayer {
             #[cfg(stepfunc_dnp3_verif)]
             Self::Verif(x) => {
                 let count = x.read(buffer).await?;
-                (count, PhysAddr::None)
+                (count, x.last_source())
             }
         };
 
